@@ -20,6 +20,11 @@
 (*          (value outside the integer range, a comparison the tables do    *)
 (*          not fix, a caller's local captured by a callee, fuel exhausted):*)
 (*          such runs are not compared                                      *)
+(* A program is [fns, begin, rules, end, input]: the BEGIN body, pattern      *)
+(* rules [pat (an expression or none), body] run for every element of the   *)
+(* input array in source order with $ and $index bound (a rule's body runs  *)
+(* iff its pattern is absent or truthy; next abandons the element; exit     *)
+(* ends the run), then the END body ($ null): C02's schedule on real data.  *)
 (* Used by Trace_Core.tla: generated programs are run on the real code and  *)
 (* TLC re-executes them here, comparing the printed lines step by step.     *)
 EXTENDS JqUtil
@@ -140,9 +145,16 @@ E(e) == [t |-> "e", e |-> e]
 S(s) == [t |-> "s", s |-> s]
 NoStmt == [k |-> "none"]
 
+\* the driver item at the bottom of the control stack: ph "begin" | "rules" | "end"; ei, ri: the
+\* element (1-based) and rule to run next
+Drv(ph, ei, ri) == [t |-> "drv", ph |-> ph, ei |-> ei, ri |-> ri]
 InitState(p) ==
-  [prog |-> p, ctl |-> <<S(p.main), [t |-> "mainend"]>>, vs |-> <<>>, frames |-> << <<>> >>,
-   out |-> <<>>, sig |-> "none", outcome |-> "running", open |-> FALSE, why |-> "", steps |-> 0, depth |-> 0]
+  [prog |-> p, ctl |-> <<S(p.begin), Drv("begin", 0, 0)>>, vs |-> <<>>, frames |-> << <<>> >>,
+   out |-> <<>>, sig |-> "none", outcome |-> "running", open |-> FALSE, why |-> "", steps |-> 0, depth |-> 0,
+   dollar |-> VNull, index |-> VUnset]
+
+\* a JSON scalar of the input as a value
+InVal(x) == IF x.k = "num" THEN VNum(x.v) ELSE IF x.k = "str" THEN VStr(x.v) ELSE IF x.k = "bool" THEN VBool(x.v) ELSE VNull
 
 Fn(s, name) == LET i == CHOOSE j \in 1..Len(s.prog.fns) : s.prog.fns[j].name = name IN s.prog.fns[i]
 HasFn(s, name) == \E j \in 1..Len(s.prog.fns) : s.prog.fns[j].name = name
@@ -165,6 +177,8 @@ StepExpr(s, e, rest) ==
     [] e.k = "str" -> [s EXCEPT !.ctl = rest, !.vs = <<VStr(e.v)>> \o s.vs]
     [] e.k = "bool" -> [s EXCEPT !.ctl = rest, !.vs = <<VBool(e.v)>> \o s.vs]
     [] e.k = "null" -> [s EXCEPT !.ctl = rest, !.vs = <<VNull>> \o s.vs]
+    [] e.k = "dollar" -> [s EXCEPT !.ctl = rest, !.vs = <<s.dollar>> \o s.vs]
+    [] e.k = "index" -> Mark([s EXCEPT !.ctl = rest, !.vs = <<s.index>> \o s.vs], s.index.t = "unset", "$index outside an array round")
     [] e.k = "var" -> Mark([s EXCEPT !.ctl = rest, !.vs = <<Lookup(s.frames, e.n)>> \o s.vs,
                                       !.frames = Touch(s.frames, e.n)], Captured(s.frames, e.n), "captured " \o e.n)
     [] e.k = "bin" ->
@@ -194,10 +208,23 @@ StepStmt(s, x, rest) ==
     [] x.k = "if" -> [s EXCEPT !.ctl = <<E(x.c), [t |-> "if", th |-> x.th, el |-> x.el]>> \o rest]
     [] x.k = "while" -> [s EXCEPT !.ctl = <<[t |-> "loop", kind |-> "while", c |-> x.c, post |-> x.c, b |-> x.b, ph |-> "test"]>> \o rest]
     [] x.k = "for" -> [s EXCEPT !.ctl = <<E(x.init), [t |-> "drop"], [t |-> "loop", kind |-> "for", c |-> x.c, post |-> x.post, b |-> x.b, ph |-> "test"]>> \o rest]
-    [] x.k \in {"break", "continue", "exit"} -> [s EXCEPT !.ctl = rest, !.sig = x.k]
+    [] x.k \in {"break", "continue", "exit", "next"} -> [s EXCEPT !.ctl = rest, !.sig = x.k]
     [] x.k = "return" ->
          IF x.e.k = "none" THEN [s EXCEPT !.ctl = rest, !.sig = "return", !.vs = <<VNull>> \o s.vs]
          ELSE [s EXCEPT !.ctl = <<E(x.e), [t |-> "ret"]>> \o rest]
+
+\* EvalProgram / evalPatternRules / evalRules over one array value
+DrvStep(s, it) ==
+  LET n == Len(s.prog.input) nr == Len(s.prog.rules) IN
+  CASE it.ph = "begin" -> [s EXCEPT !.ctl = <<Drv("rules", 1, 1)>>]
+    [] it.ph = "rules" /\ it.ei > n -> [s EXCEPT !.ctl = <<S(s.prog.end), Drv("end", 0, 0)>>, !.dollar = VNull]
+    [] it.ph = "rules" /\ it.ri > nr -> [s EXCEPT !.ctl = <<Drv("rules", it.ei + 1, 1)>>]
+    [] it.ph = "rules" ->
+         LET r == s.prog.rules[it.ri]
+             s1 == [s EXCEPT !.dollar = InVal(s.prog.input[it.ei]), !.index = VNum(it.ei - 1)]
+         IN IF r.pat.k = "none" THEN [s1 EXCEPT !.ctl = <<S(r.body), Drv("rules", it.ei, it.ri + 1)>>]
+            ELSE [s1 EXCEPT !.ctl = <<E(r.pat), [t |-> "pat", body |-> r.body], Drv("rules", it.ei, it.ri + 1)>>]
+    [] it.ph = "end" -> [s EXCEPT !.ctl = <<>>, !.outcome = "ok"]
 
 StepOp(s, it, rest) ==
   CASE it.t = "bin" ->
@@ -252,7 +279,10 @@ StepOp(s, it, rest) ==
          THEN [s EXCEPT !.vs = Tail(s.vs),
                         !.ctl = <<S(rest[1].b), [rest[1] EXCEPT !.ph = IF rest[1].kind = "for" THEN "post" ELSE "test"]>> \o Tail(rest)]
          ELSE [s EXCEPT !.vs = Tail(s.vs), !.ctl = Tail(rest)]
-    [] it.t = "mainend" -> [s EXCEPT !.ctl = rest, !.outcome = "ok"]
+    [] it.t = "pat" ->     \* evalRules: the body runs iff the pattern is truthy
+         IF Truthy(s.vs[1]) THEN [s EXCEPT !.vs = Tail(s.vs), !.ctl = <<S(it.body)>> \o rest]
+         ELSE [s EXCEPT !.vs = Tail(s.vs), !.ctl = rest]
+    [] it.t = "drv" -> DrvStep(s, it)
 
 \* --- a signal is pending: unwind to its consumer
 StepSignal(s, it, rest) ==
@@ -264,8 +294,13 @@ StepSignal(s, it, rest) ==
          [s EXCEPT !.ctl = rest, !.sig = "none", !.frames = Tail(s.frames), !.depth = s.depth - 1,
                    !.vs = <<s.vs[1]>> \o SubSeq(s.vs, Len(s.vs) - it.base + 1, Len(s.vs))]
     [] it.t = "callk" -> [s EXCEPT !.ctl = rest, !.frames = Tail(s.frames), !.depth = s.depth - 1]
-    [] it.t = "mainend" ->
-         [s EXCEPT !.ctl = rest, !.sig = "none", !.outcome = IF s.sig = "fault" THEN "runtime" ELSE "ok"]
+    [] it.t = "drv" ->
+         \* next: abandons the remaining rules for this element (in BEGIN / END: ends that rule);
+         \* exit: ends the run successfully; a fault: runtime error
+         IF s.sig = "next"
+         THEN [s EXCEPT !.sig = "none", !.vs = <<>>,
+                        !.ctl = IF it.ph = "rules" THEN <<Drv("rules", it.ei, Len(s.prog.rules) + 1)>> ELSE <<it>>]
+         ELSE [s EXCEPT !.ctl = <<>>, !.sig = "none", !.outcome = IF s.sig = "fault" THEN "runtime" ELSE "ok"]
     [] OTHER -> [s EXCEPT !.ctl = rest]
 
 StepRec(s) ==
@@ -284,7 +319,7 @@ CoreNext == \/ st.outcome = "running" /\ st' = StepRec(st)
 \* empty whenever a statement starts at the base of a frame
 CoreTypeOK ==
   /\ st.outcome \in {"running", "ok", "runtime"}
-  /\ st.sig \in {"none", "break", "continue", "return", "exit", "fault"}
+  /\ st.sig \in {"none", "break", "continue", "return", "exit", "next", "fault"}
   /\ Len(st.frames) = 1 + st.depth
   /\ st.depth <= CoreCallLimit
 CoreDepthMirrorsCalls == st.outcome = "running" =>
